@@ -267,9 +267,13 @@ func runC10(s *spec.Spec, logPath string) {
 			lastPillars = append(lastPillars, [4]string{})
 			continue
 		}
+		argSect := lk.Sect // passed to the library as is; anything but 1 means convention 2
 		sect := lk.Sect
 		if sect != 1 {
 			sect = 2
+		}
+		if argSect != sect {
+			probesC["sect_argument_other_than_1_or_2"]++
 		}
 		p := pillars(m, sect)
 		lastPillars = append(lastPillars, p)
@@ -292,7 +296,7 @@ func runC10(s *spec.Spec, logPath string) {
 		if lk.API != 0 {
 			base = 1900
 		}
-		desc := fmt.Sprintf("lookup(M=%s pillars=%s sect=%d base=%d api=%d now=%s zone=%+ds why=%s)", m, strings.Join(p[:], " "), sect, base, lk.API,
+		desc := fmt.Sprintf("lookup(M=%s pillars=%s sect=%d base=%d api=%d now=%s zone=%+ds why=%s)", m, strings.Join(p[:], " "), argSect, base, lk.API,
 			now.UTC().Format(time.RFC3339Nano), zoneOf(now), lk.Why)
 		c.resolved = append(c.resolved, desc)
 		c.sigParts = append(c.sigParts, fmt.Sprintf("%s|%d|%d|%d|%d", m, sect, base, lk.API, curL))
@@ -302,9 +306,9 @@ func runC10(s *spec.Spec, logPath string) {
 		if pn := safe(func() {
 			switch lk.API {
 			case 0:
-				l = calendar.ListSolarFromBaZiBySectAndBaseYear(p[0], p[1], p[2], p[3], sect, base)
+				l = calendar.ListSolarFromBaZiBySectAndBaseYear(p[0], p[1], p[2], p[3], argSect, base)
 			case 1:
-				l = calendar.ListSolarFromBaZiBySect(p[0], p[1], p[2], p[3], sect)
+				l = calendar.ListSolarFromBaZiBySect(p[0], p[1], p[2], p[3], argSect)
 			default:
 				l = calendar.ListSolarFromBaZi(p[0], p[1], p[2], p[3])
 			}
